@@ -1469,7 +1469,7 @@ func init() {
 func RunProbes(prop string, t *Trace, unstable bool) {
 	seg := 0
 	for _, pr := range Probes {
-		ok := prop == ""
+		ok := prop == "" || prop == "name:"+pr.Name // name:<probe> runs one probe (debugging)
 		for _, x := range pr.Props {
 			if x == prop {
 				ok = true
